@@ -190,7 +190,10 @@ def run(tier, replay=None):
             text = unhex(ir[1]).rstrip("\n")
             expr_n += 1
             try:
-                compile("(" + text + "\n)", "<expr>", "eval")
+                import warnings
+                with warnings.catch_warnings():
+                    warnings.simplefilter("ignore")
+                    compile("(" + text + "\n)", "<expr>", "eval")
             except (SyntaxError, ValueError) as e:
                 p = ck.write_replay("oracle", {"core_expression": t, "printed": text, "error": str(e)})
                 ck.violation("an expression is printed as text Python rejects: " + text[:80], p, f"CAUSE:expr\nOUT:{text}")
